@@ -384,10 +384,12 @@ def enclosing_statement(vfile, line):
 # verdict, evidence, replay
 # --------------------------------------------------------------------------
 def load_known():
-    path = os.path.join(VERIF, "known_findings.json")
-    if not os.path.exists(path):
-        return []
-    return json.load(open(path)).get("findings", [])
+    out = []
+    paths = [os.path.join(VERIF, "known_findings.json")] + sorted(glob.glob(os.path.join(VERIF, "known_findings.d", "*.json")))
+    for path in paths:
+        if os.path.exists(path):
+            out += json.load(open(path)).get("findings", [])
+    return out
 
 
 def write_replay(run, failure, idx):
